@@ -185,7 +185,7 @@ def run_file(item):
     kind, opts, seed = item
     nops, bad = check_file(kind, opts, seed)
     cuts = []
-    if kind in ('int', 'intswap', 'ts', 'il') and isinstance(opts[-1], tuple) and opts[-1][1] >= 2:
+    if kind in ('int', 'intswap', 'ts', 'il', 'be', 'mixed-il') and isinstance(opts[-1], tuple) and opts[-1][1] >= 2:
         # truncated final chunk (the chunk before it is complete): every value boundary of the target channel
         from .c04 import cuts_for
         layout = G.encode(F.f4_build(kind, opts, seed), seed=seed)[2]
